@@ -25,12 +25,13 @@ const rule = "Each case is a scenario of op lines run in its own child process o
 	"plain, %w-wrapped, errors.Join, Is method) x position, and sequences of them; every kind x error channel state " +
 	"(`chan unset|0|1|2`: SetErrorReportingChannel of that capacity which only `recv`/`park` ops read) with more panics than " +
 	"the channel holds, late and parked consumers, lifecycle routines and bursts with a full channel; " +
+	"API handler functions of every endpoint type additionally with the option core/devMode on (and toggled within a scenario); " +
 	"plus service-worker outcome sequences, management passes, items ending at module stop, the same module through several lives (stopped and restarted with work before, during and after), random mixed scenarios, " +
 	"free-running bursts and a malformed-op stream. Non-trivial = the case contains at least one executed panic; " +
 	"distinct = distinct op-line sequence."
 
 var mainPVs = []string{"nil", "err", "str", "rtidx", "struct"}
-var extraPVs = []string{"rtnil", "rtdiv", "rtmap", "int", "ptrerr", "nilptr", "evil", "slice",
+var extraPVs = []string{"rtnil", "rtdiv", "rtmap", "int", "ptrerr", "nilptr", "evil", "slice", "nilstrg",
 	"canc", "wcanc", "iscanc", "joincanc", "rst", "wrst", "dl", "wdl", "cexit", "wcexit", "moderr", "nilerrptr"}
 
 // sentinelPVs: panic values that are, wrap or match every sentinel error the managed-execution code compares a
@@ -91,7 +92,13 @@ func (b *builder) add(kind string, lines []string, noModel bool) {
 
 // prologue: bring the modules up; `settle` before the first reading because Start() may return before the
 // start routine's goroutine has run its deferred ctrlFuncRunning.UnSet().
+// devPrologue: API scenarios built now run with the option core/devMode switched on after the start.
+var devPrologue bool
+
 func prologue(api bool) []string {
+	if api && devPrologue {
+		return []string{"api", "start", "settle", "status", "devmode on"}
+	}
 	if api {
 		return []string{"api", "start", "settle", "status"}
 	}
@@ -308,6 +315,9 @@ func (b *builder) randomCase(api bool) {
 	steps := 4 + rng.Intn(14)
 	for k := 0; k < steps || len(held) > 0; k++ {
 		doSpawn := k < steps && (len(held) == 0 || (len(held) < 6 && rng.Intn(2) == 0))
+		if api && len(held) == 0 && rng.Intn(3) == 0 {
+			lines = append(lines, "devmode "+[]string{"on", "off"}[rng.Intn(2)])
+		}
 		switch {
 		case doSpawn:
 			var kind string
@@ -476,7 +486,12 @@ func (b *builder) burstCase(api bool) {
 		items[i] = k + "=" + o
 		b.r.Count("burst:kind:" + k)
 	}
+	devPrologue = api && rng.Intn(2) == 0
 	lines := append(prologue(api), "burst "+strings.Join(items, " "))
+	devPrologue = false
+	if api && rng.Intn(2) == 0 {
+		lines = append(lines, "devmode "+[]string{"on", "off"}[rng.Intn(2)])
+	}
 	if rng.Intn(2) == 0 {
 		items2 := make([]string, 1+rng.Intn(6))
 		for i := range items2 {
@@ -567,6 +582,9 @@ func (b *builder) svcSentinelSeq() {
 func allPVs() []string { return append(append([]string{}, mainPVs...), extraPVs...) }
 
 func chanPrologue(api bool, capTok, stopTok string) []string {
+	if api && devPrologue {
+		return []string{"api", "chan " + capTok, "start", "settle", "status", "devmode on"}
+	}
 	if api {
 		return []string{"api", "chan " + capTok, "start", "settle", "status"}
 	}
@@ -585,7 +603,9 @@ func (b *builder) chanKindCase(kind, capTok string) {
 		capN, _ = strconv.Atoi(capTok)
 	}
 	stopTok := []string{"ok", "ok", "p:str", "p:wcanc", "-"}[rng.Intn(5)]
+	devPrologue = api && rng.Intn(2) == 0
 	lines := chanPrologue(api, capTok, stopTok)
+	devPrologue = false
 	k := capN + 1 + rng.Intn(2)
 	id := 0
 	one := func() spec {
@@ -910,6 +930,36 @@ func generate(r *hxlib.Run, emit func(hxlib.Case)) {
 			n := 1 + rng.Intn(6)
 			b.tableCell(kind, pv, n, rng.Intn(n), true)
 		}
+	}
+	// 1b. API handler functions of every endpoint type with dev mode on (the handler-level recover has a branch on it):
+	// kind x value class x (n <= 3, position), the other value classes at random positions; dev mode switched within a scenario
+	devPrologue = true
+	for _, kind := range apiKinds {
+		for _, pv := range mainPVs {
+			for n := 1; n <= 3; n++ {
+				for p := 0; p < n; p++ {
+					b.tableCell(kind, pv, n, p, n == 3)
+				}
+			}
+		}
+		for _, pv := range append(append([]string{}, extraPVs...), "abort") {
+			n := 1 + rng.Intn(4)
+			b.tableCell(kind, pv, n, rng.Intn(n), true)
+		}
+	}
+	devPrologue = false
+	for i := r.Budget(40, 1000); i > 0; i-- {
+		kind := apiKinds[rng.Intn(len(apiKinds))]
+		pvs := allPVs()
+		lines := prologue(true)
+		for k := 1; k <= 2+rng.Intn(4); k++ {
+			lines = append(lines, "devmode "+[]string{"on", "off"}[rng.Intn(2)])
+			id := strconv.Itoa(k)
+			lines = append(lines, "spawn "+id+" "+apiKinds[rng.Intn(len(apiKinds))]+" p:"+pvs[rng.Intn(len(pvs))], "finish "+id)
+		}
+		lines = append(lines, epilogue()...)
+		r.Count("devmode-toggle:" + kind)
+		b.add("api-devmode-toggle", lines, false)
 	}
 	// 2. lifecycle routines: phase x outcome x (n, position)
 	for _, phase := range []string{"prep", "start", "stop"} {
